@@ -634,6 +634,26 @@ def judgeTextFree (ents : List OEntry) (cmd : String) (obs : String) : List (Str
         | none => []
   | _ => [(prop, s!"{cmd} answered '{obs.take 40}'")]
 
+/-- a stand-in for the reference state read off a full observation: the present vertices, their edges, and *whether* they hold
+    data (the bytes are not in an observation) — enough for `inspect` and `v_print` (C20) -/
+def rOfObs (ents : List OEntry) : R :=
+  { (Sodg.R.empty : R) with
+    ids := ents.map (·.id),
+    edg := fun v => match ents.find? (·.id = v) with
+      | some e => e.edges.filterMap (fun x => (parseLabelTok x.1).map (fun l => (l, x.2)))
+      | none => [],
+    dat := fun v => match ents.find? (·.id = v) with
+      | some e => if e.marker then some default else none
+      | none => none }
+
+/-- everything reachable from `v` over the observed edges is present (then `inspect(v)` reads present slots only) -/
+def closedInObs (ents : List OEntry) (v : Nat) : Bool :=
+  let present := ents.map (·.id)
+  let edgesOf (x : Nat) : List Nat := match ents.find? (·.id = x) with | some e => e.edges.map (·.2) | none => []
+  let step (acc : List Nat) : List Nat := acc.foldl (fun acc x => (edgesOf x).foldl (fun acc t => if t ∈ acc then acc else acc ++ [t]) acc) acc
+  let clo := (List.range (present.length + 1)).foldl (fun acc _ => step acc) [v]
+  clo.all (· ∈ present)
+
 def judgeLine2 (j : JSt) (lineNo : Nat) (opLine obsLine : String) : JSt :=
   let j := { j with stats := { j.stats with calls := j.stats.calls + 1 } }
   match words opLine with
@@ -999,7 +1019,17 @@ def judgeLine1 (j : JSt) (lineNo : Nat) (opLine obsLine : String) : JSt :=
           let (tm, rej) := judgeText j.tm m cmd v.toNat? obsLine
           let j := { j with tm := tm }
           rej.foldl (fun j (p, msg) => j.reject p lineNo (opLine.trimAscii.toString ++ ": " ++ msg)) j
-        else j
+        else
+          -- C20 without a reference state: against the last full observation of the handle (nothing called on it since), when
+          -- the vertex is present there and everything reachable from it is
+          match (parseHandle a).bind (fun h => j.freshObs.find? (·.1 = h)), v.toNat? with
+          | some (_, ents), some vv =>
+            if ents.any (·.id = vv) ∧ closedInObs ents vv then
+              let (tm, rej) := judgeText j.tm { m with r := rOfObs ents } cmd (some vv) obsLine
+              let j := { j with tm := tm }
+              rej.foldl (fun j (p, msg) => j.reject p lineNo (opLine.trimAscii.toString ++ ": " ++ msg ++ " (as last observed)")) j
+            else j
+          | _, _ => j
       | none => j
     else judgeLine2 j lineNo opLine obsLine
   | _ => judgeLine2 j lineNo opLine obsLine
